@@ -71,7 +71,7 @@ def _narrow_case(draw, a, b):
 def _prim_case(draw, fname):
     k1, k2 = prim.FUNCTIONS[fname]
     g = draw(_g(allow_swap=(k1 == k2)))
-    fam = draw(st.sampled_from(["free", "shared", "shared", "touch", "inside", "lattice"]))
+    fam = draw(st.sampled_from(["free", "shared", "planar", "touch", "inside", "lattice"]))
     base = draw(prim.pair_case(fname, fam))
     return {"base": base, "g": g}
 
